@@ -16,12 +16,11 @@
 (* A string is a sequence of characters (TLA+ semantics); a character is a *)
 (* string of length one.  Only Len, \o and SubSeq are applied to strings.  *)
 (*                                                                         *)
-(* The behaviour specification (Init/Next) feeds the lexer every string    *)
-(* over Alphabet up to MaxLen characters, one Char(c) step per character   *)
-(* (a step first Emits the pending token when c cannot extend it).  TLC    *)
-(* checks the invariants at the end of this module on every such string    *)
-(* and prints the well-formed ones (with the expected rewrite) for replay  *)
-(* on the implementation.                                                  *)
+(* The lexer is the function CharStep(L, c) on lexer states (fields mode,   *)
+(* tok, out, ...): one character either extends the pending token or first *)
+(* Emits it.  CLex.tla runs it as a TLC behaviour over all short strings;  *)
+(* CLexTrace.tla runs it over what the implementation read and wrote, with *)
+(* the state carried from line to line.                                    *)
 (*                                                                         *)
 (* Abstractions (both sides of every comparison use the same lexer, so     *)
 (* they cannot produce a false alarm): trigraphs and digraphs are not      *)
@@ -61,9 +60,12 @@ Rest(s, i) == IF i > Len(s) THEN "" ELSE SubSeq(s, i, Len(s))
 (*        lcomment / bcomment   inside a comment (tok = "*" in bcomment    *)
 (*                  when the previous character was a star)                *)
 (* tok    text of the token so far                                         *)
-(* out    completed tokens, each [cls, txt, gap]; gap = white space, a     *)
-(*        comment or a line start precedes the token                       *)
+(* out    completed tokens, each [cls, txt, gap, bol, spl]; gap = white     *)
+(*        space, a comment or a line start precedes the token; bol = it is *)
+(*        the first token of its line; spl = its spelling in the text is   *)
+(*        interrupted by a line splice                                     *)
 (* bs     a backslash has been read and may start a line splice (phase 2)  *)
+(* spl    a line splice occurred inside the pending token                  *)
 (* esc    inside a literal: the previous character was an escaping "\"     *)
 (* bol    nothing but white space on this logical line so far              *)
 (* dir    no / hash / include / body : position inside a directive         *)
@@ -72,7 +74,7 @@ Modes == {"code", "ident", "number", "punct", "string", "chr", "header", "lcomme
 Classes == {"id", "num", "punct", "str", "chr", "hdr", "eod", "other", "bad"}
 
 L0 == [mode |-> "code", tok |-> "", out |-> <<>>, bs |-> FALSE, esc |-> FALSE,
-       bol |-> TRUE, dir |-> "no", gap |-> TRUE]
+       bol |-> TRUE, dir |-> "no", gap |-> TRUE, spl |-> FALSE]
 
 ClsOfMode(m) == CASE m = "ident" -> "id" [] m = "number" -> "num" [] m = "punct" -> "punct"
                   [] m = "string" -> "str" [] m = "chr" -> "chr" [] m = "header" -> "hdr"
@@ -82,8 +84,8 @@ Push(L, cls, txt) ==
                 ELSE IF L.dir = "hash" THEN (IF cls = "id" /\ txt = "include" THEN "include" ELSE "body")
                 ELSE IF L.dir = "include" THEN "body"
                 ELSE L.dir
-    IN [L EXCEPT !.out = Append(@, [cls |-> cls, txt |-> txt, gap |-> L.gap]),
-                 !.mode = "code", !.tok = "", !.esc = FALSE, !.bol = FALSE, !.gap = FALSE,
+    IN [L EXCEPT !.out = Append(@, [cls |-> cls, txt |-> txt, gap |-> L.gap, bol |-> L.bol, spl |-> L.spl]),
+                 !.mode = "code", !.tok = "", !.esc = FALSE, !.bol = FALSE, !.gap = FALSE, !.spl = FALSE,
                  !.dir = dir2]
 
 \* Emit: the pending token is complete
@@ -94,7 +96,7 @@ EmitBad(L) == Push(L, "bad", L.tok)
 \* a new-line character that is not spliced away, seen between tokens
 NewLine(L) ==
     LET L1 == IF L.dir # "no"
-              THEN [L EXCEPT !.out = Append(@, [cls |-> "eod", txt |-> NL, gap |-> FALSE])]
+              THEN [L EXCEPT !.out = Append(@, [cls |-> "eod", txt |-> NL, gap |-> FALSE, bol |-> FALSE, spl |-> FALSE])]
               ELSE L
     IN [L1 EXCEPT !.dir = "no", !.bol = TRUE, !.gap = TRUE, !.mode = "code", !.tok = ""]
 
@@ -121,8 +123,8 @@ Char0(L, c) ==
             ELSE IF c \in {"+", "-"} /\ Last(L.tok) \in {"e", "E", "p", "P"} THEN [L EXCEPT !.tok = @ \o c]
             ELSE Char0(Emit(L), c)
       [] L.mode = "punct" ->
-            IF L.tok = "/" /\ c = "*" THEN [L EXCEPT !.mode = "bcomment", !.tok = "", !.gap = TRUE]
-            ELSE IF L.tok = "/" /\ c = "/" THEN [L EXCEPT !.mode = "lcomment", !.tok = "", !.gap = TRUE]
+            IF L.tok = "/" /\ c = "*" THEN [L EXCEPT !.mode = "bcomment", !.tok = "", !.gap = TRUE, !.spl = FALSE]
+            ELSE IF L.tok = "/" /\ c = "/" THEN [L EXCEPT !.mode = "lcomment", !.tok = "", !.gap = TRUE, !.spl = FALSE]
             ELSE IF L.tok = "." /\ c \in Digit THEN [L EXCEPT !.mode = "number", !.tok = @ \o c]
             ELSE IF (L.tok \o c) \in Puncts THEN [L EXCEPT !.tok = @ \o c]
             ELSE Char0(Emit(L), c)
@@ -144,7 +146,7 @@ Char0(L, c) ==
 
 \* Char: one character of the text; backslash new-line is deleted in every mode (phase 2)
 CharStep(L, c) ==
-    IF L.bs /\ c = NL THEN [L EXCEPT !.bs = FALSE]
+    IF L.bs /\ c = NL THEN [L EXCEPT !.bs = FALSE, !.spl = L.spl \/ (L.tok # "" /\ L.mode \notin {"lcomment", "bcomment"})]
     ELSE LET L1 == IF L.bs THEN Char0([L EXCEPT !.bs = FALSE], BSlash) ELSE L
          IN IF c = BSlash THEN [L1 EXCEPT !.bs = TRUE] ELSE Char0(L1, c)
 
@@ -205,8 +207,9 @@ NumInfo(s) ==
 \* ---------------------------------------------------------------- token classes
 VectorWidths == {"2", "4", "8", "16"}
 IsVectorDouble(txt) == Len(txt) > 6 /\ SubSeq(txt, 1, 6) = "double" /\ Rest(txt, 7) \in VectorWidths
+IsTypeTok(t) == t.cls = "id" /\ (t.txt = "double" \/ IsVectorDouble(t.txt))
 \* the class of a token of the double-precision source, as reported in a verdict
-TokClass(t) ==
+TokClass0(t) ==
     CASE t.cls = "num" ->
             LET n == NumInfo(t.txt) IN
             IF n.kind = "decfloat" /\ n.suffix = ""
@@ -225,14 +228,19 @@ TokClass(t) ==
       [] t.cls = "punct" -> "punctuator"
       [] t.cls = "eod" -> "directive-end"
       [] OTHER -> t.cls
+TokClass(t) == IF "spl" \in DOMAIN t /\ t.spl THEN "spliced-" \o TokClass0(t) ELSE TokClass0(t)
 
 \* Well-formed input (the property quantifies over well-formed C): every token is a token of C
-\* (no unterminated literal, every pp-number is a constant) and no constant is glued to a
-\* preceding identifier ("x.5", "return.5": no C grammar rule derives identifier constant
-\* without white space... the regular expressions of the implementation use this).
+\* (no unterminated literal, every pp-number is a constant) and the token sequence does not
+\* contain one of four patterns that no rule of the C grammar derives: a constant glued to a
+\* preceding identifier ("x.5"), a constant after the member operator (". .5"), two floating
+\* type names in a row ("double double"), tokens after the header name of an #include.
 WFTokens(ts) ==
     /\ \A i \in 1..Len(ts) : ts[i].cls # "bad" /\ (ts[i].cls = "num" => NumInfo(ts[i].txt).kind # "badnum")
-    /\ \A i \in 2..Len(ts) : ~(ts[i].cls = "num" /\ ~ts[i].gap /\ ts[i - 1].cls = "id")
+    /\ \A i \in 2..Len(ts) : /\ ~(ts[i].cls = "num" /\ ~ts[i].gap /\ ts[i - 1].cls = "id")
+                            /\ ~(ts[i].cls = "num" /\ ts[i - 1].cls = "punct" /\ ts[i - 1].txt = ".")
+                            /\ ~(IsTypeTok(ts[i]) /\ IsTypeTok(ts[i - 1]))
+                            /\ ~(ts[i - 1].cls = "hdr" /\ ts[i].cls # "eod")
 WellFormed(s) == ClosedText(s) /\ WFTokens(Lex(s))
 
 \* ---------------------------------------------------------------- the rewrite
@@ -243,19 +251,19 @@ LitFlag(prec) == CASE prec = 32 -> "f" [] prec = 64 -> "" [] prec = 128 -> "L"
 \* vacuity control: FALSE models the implementation as written (hexadecimal constants untouched)
 CONSTANT TagHexFloats
 
-Tok(cls, txt, from) == [cls |-> cls, txt |-> txt, from |-> from]
+Tok(cls, txt, from, bol) == [cls |-> cls, txt |-> txt, from |-> from, bol |-> bol]
 \* tokens replacing token t (index k of the double source) at precision prec
 ConvTok(t, k, prec) ==
-    IF prec = 64 THEN <<Tok(t.cls, t.txt, k)>>
+    IF prec = 64 THEN <<Tok(t.cls, t.txt, k, t.bol)>>
     ELSE IF t.cls = "id" /\ t.txt = "double"
-    THEN [j \in 1..Len(TypeName(prec)) |-> Tok("id", TypeName(prec)[j], k)]
+    THEN [j \in 1..Len(TypeName(prec)) |-> Tok("id", TypeName(prec)[j], k, t.bol /\ j = 1)]
     ELSE IF t.cls = "id" /\ IsVectorDouble(t.txt)      \* OpenCL floatn; "long doublen" as for the scalar
-    THEN (IF prec = 32 THEN <<Tok("id", "float" \o Rest(t.txt, 7), k)>>
-          ELSE <<Tok("id", "long", k), Tok("id", t.txt, k)>>)
+    THEN (IF prec = 32 THEN <<Tok("id", "float" \o Rest(t.txt, 7), k, t.bol)>>
+          ELSE <<Tok("id", "long", k, t.bol), Tok("id", t.txt, k, FALSE)>>)
     ELSE IF t.cls = "num" /\ NumInfo(t.txt).suffix = ""
             /\ (NumInfo(t.txt).kind = "decfloat" \/ (TagHexFloats /\ NumInfo(t.txt).kind = "hexfloat"))
-    THEN <<Tok("num", t.txt \o LitFlag(prec), k)>>
-    ELSE <<Tok(t.cls, t.txt, k)>>
+    THEN <<Tok("num", t.txt \o LitFlag(prec), k, t.bol)>>
+    ELSE <<Tok(t.cls, t.txt, k, t.bol)>>
 
 RECURSIVE ConvFrom(_, _, _)
 ConvFrom(ts, k, prec) == IF k > Len(ts) THEN <<>> ELSE ConvTok(ts[k], k, prec) \o ConvFrom(ts, k + 1, prec)
@@ -270,9 +278,11 @@ FirstDiff(a, b, i) ==
     ELSE IF a[i].cls # b[i].cls \/ a[i].txt # b[i].txt THEN i
     ELSE FirstDiff(a, b, i + 1)
 
+\* the tokens printed: one blank after each, line structure kept (it matters for directives)
 RECURSIVE Unlex(_, _)
 Unlex(ts, i) == IF i > Len(ts) THEN ""
-                ELSE (IF ts[i].cls = "eod" THEN NL ELSE ts[i].txt \o " ") \o Unlex(ts, i + 1)
+                ELSE (IF ts[i].cls = "eod" THEN NL ELSE (IF ts[i].bol /\ i > 1 THEN NL ELSE "") \o ts[i].txt \o " ")
+                     \o Unlex(ts, i + 1)
 Text(ts) == Unlex(ts, 1)
 
 \* ---------------------------------------------------------------- precision requests
